@@ -5,6 +5,7 @@ SPEC = {
         "k*10+1": "send k: accepted / rejected (or the rejecting phase: graphql.Parse vs PrepareQuery) differs",
         "k*10+2": "send k: value that reached the resolver differs from the model's parse result",
         "k*10+3": "send k: number of resolver calls differs from the two-phase machine (1 after Ok, 0 after a rejection)",
+        "101-103": "the same three for a request that selects the field several times (aliases / fragments): outcome, per-selection values in document order, number of resolver calls",
     },
     "corr_name": "Args.Model (parse_doc: defaults, then fragment bodies, then the operation; vtj; parse; prepare) vs graphql.Parse / PrepareQuery / Execute with reflect-built argument structs, field in the operation body, a named fragment or an inline fragment",
     "coq_modules": ["Args.Model", "Args.Spec", "Args.Codec", "Args.Proofs", "Args.ProofsReject", "Args.ProofsInst", "Args.ProofsSubst", "Args.ProofsTotal", "Args.ProofsDoc", "Gen.ArgParsers", "Args.Table"],
